@@ -27,8 +27,20 @@ type Site struct {
 	Kind       string   `json:"kind"` // typeswitch | nameswitch
 	Scrutinee  string   `json:"scrutinee"`
 	Handled    []string `json:"handled"`
-	DomainKind string   `json:"domain_kind"` // ast-iface | ast-filter | ir-constructed | builtin-names | contextual
+	DomainKind string   `json:"domain_kind"` // ast-iface | types-iface | ast-filter | ir-constructed | builtin-names | contextual
 	Domain     []string `json:"domain"`
+	// properties of the scrutinee expression recognised structurally: "underlying-call"
+	// (X.Underlying()), "coretype-call" (typeutil.CoreType(X) / ts.CoreType()), "term-type"
+	// (term.Type()... of a *types.Term). checks/c03_expect.json attaches class excuses to them.
+	Forms []string `json:"scrutinee_forms"`
+	// label stripping directly in front of the switch: {"mode": "loop"|"once", "kind": "*ast.LabeledStmt"}
+	Strip    *Strip `json:"strip,omitempty"`
+	Analyzer string `json:"analyzer"` // package directory of the site, e.g. simple/s1031
+}
+
+type Strip struct {
+	Mode string `json:"mode"`
+	Kind string `json:"kind"`
 }
 
 func main() {
@@ -41,17 +53,20 @@ func main() {
 		fmt.Fprintln(os.Stderr, err)
 		os.Exit(2)
 	}
-	var astPkg, irPkg *types.Package
+	var astPkg, irPkg, typesPkg *types.Package
 	packages.Visit(pkgs, nil, func(p *packages.Package) {
 		if p.PkgPath == "go/ast" {
 			astPkg = p.Types
+		}
+		if p.PkgPath == "go/types" {
+			typesPkg = p.Types
 		}
 		if p.PkgPath == "honnef.co/go/tools/go/ir" {
 			irPkg = p.Types
 		}
 	})
-	if astPkg == nil || irPkg == nil {
-		fmt.Fprintln(os.Stderr, "go/ast or go/ir not loaded")
+	if astPkg == nil || irPkg == nil || typesPkg == nil {
+		fmt.Fprintln(os.Stderr, "go/ast, go/types or go/ir not loaded")
 		os.Exit(2)
 	}
 
@@ -167,9 +182,15 @@ func main() {
 						Scrutinee: typeStr(st),
 						Handled:   handled,
 					}
-					site.DomainKind, site.Domain = domainOf(p, st, x, stack, astPkg, irPkg, irConstructed, implementers, typeStr)
+					site.Forms = scrutineeForms(p, x, typeStr)
+					site.DomainKind, site.Domain = domainOf(p, st, x, stack, astPkg, irPkg, typesPkg, irConstructed, implementers, typeStr)
+					if site.DomainKind == "types-iface" && hasForm(site.Forms, "coretype-call") {
+						site.Domain = append(site.Domain, "nil") // no core type
+					}
 					// a case naming an interface handles every domain element implementing it
-					site.Handled = expandIfaceCases(p, sw, site.Handled, site.Domain, astPkg, irPkg, typeStr)
+					site.Handled = expandIfaceCases(p, sw, site.Handled, site.Domain, astPkg, irPkg, typesPkg, typeStr)
+					site.Strip = labelStrip(p, sw, x, stack, typeStr)
+					site.Analyzer = analyzerOf(rel)
 					sites = append(sites, site)
 				case *ast.SwitchStmt:
 					// switch callee.Name() { case "append": ... default: panic(...) }
@@ -212,6 +233,8 @@ func main() {
 						Scrutinee:  "ir.Builtin.Name()",
 						Handled:    handled,
 						DomainKind: "builtin-names",
+						Forms:      []string{},
+						Analyzer:   analyzerOf(rel),
 					})
 				}
 				return true
@@ -232,6 +255,10 @@ func main() {
 				astIfaces["ast."+n] = append(astIfaces["ast."+n], t)
 			}
 		}
+	}
+	for _, n := range []string{"Type", "Object"} {
+		iface := typesPkg.Scope().Lookup(n).Type().Underlying().(*types.Interface)
+		astIfaces["types."+n] = implementers(typesPkg, iface)
 	}
 	// names of ir-internal builtins: Builtin{name: "ssa:..."} literals in package ir
 	ssaNames := map[string]bool{}
@@ -268,10 +295,10 @@ func main() {
 	sort.Strings(ssa)
 	enc := json.NewEncoder(os.Stdout)
 	enc.SetIndent("", " ")
-	enc.Encode(map[string]any{"sites": sites, "ir_constructed": cons, "ast_ifaces": astIfaces, "ssa_builtin_names": ssa})
+	enc.Encode(map[string]any{"sites": sites, "ir_constructed": cons, "ifaces": astIfaces, "ssa_builtin_names": ssa})
 }
 
-func expandIfaceCases(p *packages.Package, sw *ast.TypeSwitchStmt, handled, domain []string, astPkg, irPkg *types.Package, typeStr func(types.Type) string) []string {
+func expandIfaceCases(p *packages.Package, sw *ast.TypeSwitchStmt, handled, domain []string, astPkg, irPkg, typesPkg *types.Package, typeStr func(types.Type) string) []string {
 	set := map[string]bool{}
 	for _, h := range handled {
 		set[h] = true
@@ -289,6 +316,8 @@ func expandIfaceCases(p *packages.Package, sw *ast.TypeSwitchStmt, handled, doma
 			pkg = astPkg
 		case "ir":
 			pkg = irPkg
+		case "types":
+			pkg = typesPkg
 		}
 		if pkg == nil {
 			return nil
@@ -350,38 +379,172 @@ func analyseTypeSwitch(p *packages.Package, sw *ast.TypeSwitchStmt, typeStr func
 	return def, handled, def != nil
 }
 
-// panics reports whether the default clause unconditionally panics.
+// panics reports whether the default clause unconditionally panics: at the top level of the
+// clause there is a call of panic / lint.ExhaustiveTypeSwitch, and the statements in front
+// of it are simple (assignments / declarations computing the message). Statements after
+// the call (an unreachable `return false`) do not matter.
 func panics(p *packages.Package, cc *ast.CaseClause) bool {
-	if len(cc.Body) == 0 {
-		return false
-	}
-	// the clause ends in an unconditional panic; earlier statements may only be simple
-	// (assignments / declarations computing the message)
-	for _, s := range cc.Body[:len(cc.Body)-1] {
-		switch s.(type) {
+	for _, s := range cc.Body {
+		switch s := s.(type) {
 		case *ast.AssignStmt, *ast.DeclStmt:
+			continue
+		case *ast.ExprStmt:
+			call, ok := s.X.(*ast.CallExpr)
+			if !ok {
+				return false
+			}
+			switch fn := call.Fun.(type) {
+			case *ast.Ident:
+				return fn.Name == "panic"
+			case *ast.SelectorExpr:
+				return fn.Sel.Name == "ExhaustiveTypeSwitch"
+			}
+			return false
 		default:
 			return false
 		}
 	}
-	es, ok := cc.Body[len(cc.Body)-1].(*ast.ExprStmt)
-	if !ok {
-		return false
-	}
-	call, ok := es.X.(*ast.CallExpr)
-	if !ok {
-		return false
-	}
-	switch fn := call.Fun.(type) {
-	case *ast.Ident:
-		return fn.Name == "panic"
-	case *ast.SelectorExpr:
-		return fn.Sel.Name == "ExhaustiveTypeSwitch"
+	return false
+}
+
+func hasForm(fs []string, f string) bool {
+	for _, x := range fs {
+		if x == f {
+			return true
+		}
 	}
 	return false
 }
 
-func domainOf(p *packages.Package, st types.Type, x ast.Expr, stack []ast.Node, astPkg, irPkg *types.Package, irConstructed map[string]bool,
+// analyzerOf maps a site's file to the package directory it lives in.
+func analyzerOf(rel string) string {
+	if i := strings.LastIndex(rel, "/"); i >= 0 {
+		return rel[:i]
+	}
+	return rel
+}
+
+// scrutineeForms recognises how the switched-over value is computed.
+func scrutineeForms(p *packages.Package, x ast.Expr, typeStr func(types.Type) string) []string {
+	forms := []string{}
+	x = ast.Unparen(x)
+	call, ok := x.(*ast.CallExpr)
+	if !ok {
+		return forms
+	}
+	switch fn := call.Fun.(type) {
+	case *ast.SelectorExpr:
+		switch {
+		case fn.Sel.Name == "Underlying" && len(call.Args) == 0:
+			forms = append(forms, "underlying-call")
+			// term.Type().Underlying()
+			if inner, ok := ast.Unparen(fn.X).(*ast.CallExpr); ok {
+				if isel, ok := inner.Fun.(*ast.SelectorExpr); ok && isel.Sel.Name == "Type" && len(inner.Args) == 0 {
+					if t := p.TypesInfo.TypeOf(isel.X); t != nil && typeStr(t) == "*types.Term" {
+						forms = append(forms, "term-type")
+					}
+				}
+			}
+		case fn.Sel.Name == "CoreType":
+			forms = append(forms, "coretype-call")
+		case fn.Sel.Name == "Unalias" && len(call.Args) == 1:
+			forms = append(forms, "unalias-call")
+		}
+	}
+	return forms
+}
+
+// labelStrip recognises the statement directly in front of the switch that removes
+// *ast.LabeledStmt wrappers from the scrutinee variable V:
+//
+//	for { if l, ok := V.(*ast.LabeledStmt); ok { V = l.Stmt } else { break } }   -> mode "loop"
+//	if l, ok := V.(*ast.LabeledStmt); ok { V = l.Stmt }                          -> mode "once"
+func labelStrip(p *packages.Package, sw *ast.TypeSwitchStmt, x ast.Expr, stack []ast.Node, typeStr func(types.Type) string) *Strip {
+	v, ok := ast.Unparen(x).(*ast.Ident)
+	if !ok || len(stack) < 2 {
+		return nil
+	}
+	var list []ast.Stmt
+	switch parent := stack[len(stack)-2].(type) {
+	case *ast.BlockStmt:
+		list = parent.List
+	case *ast.CaseClause:
+		list = parent.Body
+	default:
+		return nil
+	}
+	var prev ast.Stmt
+	for i, s := range list {
+		if s == ast.Stmt(sw) && i > 0 {
+			prev = list[i-1]
+		}
+	}
+	if prev == nil {
+		return nil
+	}
+	// the single stripping `if`
+	stripIf := func(s ast.Stmt, wantBreakElse bool) (string, bool) {
+		is, ok := s.(*ast.IfStmt)
+		if !ok || is.Init == nil {
+			return "", false
+		}
+		as, ok := is.Init.(*ast.AssignStmt)
+		if !ok || len(as.Lhs) != 2 || len(as.Rhs) != 1 {
+			return "", false
+		}
+		ta, ok := as.Rhs[0].(*ast.TypeAssertExpr)
+		if !ok || ta.Type == nil {
+			return "", false
+		}
+		if id, ok := ast.Unparen(ta.X).(*ast.Ident); !ok || p.TypesInfo.ObjectOf(id) != p.TypesInfo.ObjectOf(v) {
+			return "", false
+		}
+		okID, isID := as.Lhs[1].(*ast.Ident)
+		cond, isC := is.Cond.(*ast.Ident)
+		if !isID || !isC || cond.Name != okID.Name {
+			return "", false
+		}
+		// body: V = l.Stmt
+		if len(is.Body.List) != 1 {
+			return "", false
+		}
+		asg, ok := is.Body.List[0].(*ast.AssignStmt)
+		if !ok || len(asg.Lhs) != 1 || len(asg.Rhs) != 1 {
+			return "", false
+		}
+		if id, ok := asg.Lhs[0].(*ast.Ident); !ok || p.TypesInfo.ObjectOf(id) != p.TypesInfo.ObjectOf(v) {
+			return "", false
+		}
+		sel, ok := asg.Rhs[0].(*ast.SelectorExpr)
+		if !ok || sel.Sel.Name != "Stmt" {
+			return "", false
+		}
+		if wantBreakElse {
+			eb, ok := is.Else.(*ast.BlockStmt)
+			if !ok || len(eb.List) != 1 {
+				return "", false
+			}
+			if br, ok := eb.List[0].(*ast.BranchStmt); !ok || br.Tok != token.BREAK || br.Label != nil {
+				return "", false
+			}
+		} else if is.Else != nil {
+			return "", false
+		}
+		return typeStr(p.TypesInfo.TypeOf(ta.Type)), true
+	}
+	if fs, ok := prev.(*ast.ForStmt); ok && fs.Init == nil && fs.Cond == nil && fs.Post == nil && len(fs.Body.List) == 1 {
+		if k, ok := stripIf(fs.Body.List[0], true); ok {
+			return &Strip{Mode: "loop", Kind: k}
+		}
+		return nil
+	}
+	if k, ok := stripIf(prev, false); ok {
+		return &Strip{Mode: "once", Kind: k}
+	}
+	return nil
+}
+
+func domainOf(p *packages.Package, st types.Type, x ast.Expr, stack []ast.Node, astPkg, irPkg, typesPkg *types.Package, irConstructed map[string]bool,
 	implementers func(*types.Package, *types.Interface) []string, typeStr func(types.Type) string) (string, []string) {
 	nt, ok := types.Unalias(st).(*types.Named)
 	if !ok {
@@ -418,6 +581,9 @@ func domainOf(p *packages.Package, st types.Type, x ast.Expr, stack []ast.Node, 
 			out = append(out, t)
 		}
 		return "ast-iface", out
+	case nt.Obj().Pkg() == typesPkg && (nt.Obj().Name() == "Type" || nt.Obj().Name() == "Object"):
+		// implementers in go/types of the current toolchain (export data)
+		return "types-iface", implementers(typesPkg, iface)
 	case nt.Obj().Pkg() == irPkg && (nt.Obj().Name() == "Instruction"):
 		var out []string
 		for _, t := range implementers(irPkg, iface) {
